@@ -35,3 +35,15 @@ pub fn nonce_val(b: &[u8; 12]) -> u128 {
     a[4..].copy_from_slice(b);
     u128::from_be_bytes(a)
 }
+
+/// Result -> Option without running the drop glue of `Error` (its io::Error variants make CBMC explore the whole
+/// boxed-dyn-Error destructor; irrelevant to every property and measured to turn 1 s harnesses into timeouts)
+pub fn okf<T>(r: Result<T, crate::error::Error>) -> Option<T> {
+    match r {
+        Ok(v) => Some(v),
+        Err(e) => {
+            std::mem::forget(e);
+            None
+        }
+    }
+}
